@@ -32,7 +32,7 @@ C['C18'] = dict(cat='model_checking', tech="explicit exhaustive exploration of e
     ref="DESIGN.md 3.3, 4 (C18)")
 
 C['C01'] = dict(cat='exploration', tech=BE,
-    text="Every file content of <=3/<=4 tokens over 16 byte tokens (0x00, the wire delimiter 0xAC alone and inside UTF-8 characters, 0xFF, leading '.', '|', ';', CR, runs around MaxLineLength), gzip/zstd encodings, and a long-line family around MaxLineLength and the 32 KiB transport buffer, each run through the real dcat main body (serverless) and compared byte for byte with the statement's reference (newline inserted after every MaxLineLength non-newline bytes).",
+    text="Every file content of <=3/<=4 tokens over 16 byte tokens (0x00, the wire delimiter 0xAC alone and inside UTF-8 characters, 0xFF, leading '.', '|', ';', CR, runs around MaxLineLength), gzip/zstd encodings, and a long-line family around MaxLineLength and the 32 KiB transport buffer, each run through the real dcat main body (serverless, controlled scheduler, incl. reads slow enough to span dtail's timers) and compared byte for byte with the statement's reference (newline inserted after every MaxLineLength non-newline bytes); part 2 fetches all contents of <=3/<=4 tokens and over-long lines through a real in-process dtail server over SSH (native build).",
     ref="DESIGN.md 3.3, 4 (C01)")
 C['C02'] = dict(cat='model_checking', tech=MC,
     text="All schedules within a deviation bound (quick d<=2, thorough d<=2 on a larger scenario set; deviations = preemption, non-first ready select case, goroutine demotion) of complete dcat/dgrep sessions (real client main body, serverless connector, server handler, readers, client handler) over 1-3 files, with queueing behind the cat limit and consumer stalls of 50 ms..6 s; oracle: per file exactly its selected lines once and in order, exit status 0, termination.",
@@ -57,8 +57,8 @@ C['C09'] = dict(engine='native-ssh', cat='exploration', tech="bounded exhaustive
     text="All authorized_keys files of <=3/<=4 lines over 11 line kinds x offered keys through the real verifyAuthorizedKeys; the full product user x password x source address x job configuration through the real password callback; real SSH handshakes and real health sessions (8 commands) against an in-process server.",
     ref="DESIGN.md 3.3, 3.5, 4 (C09)",
     note="Native build (no rewriting): real goroutines and loopback sockets. Trusted: x/crypto/ssh (proof of key possession), the kernel. Waiting is by positive protocol events; no timing oracle.")
-C['C14'] = dict(engine='native-ssh', cat='model_checking', tech="explicit-state breadth-first search over connection-event histories, every transition replayed against a fresh real SSH server (reference model = a counter)",
-    text="Breadth-first search over histories of connection events (connect, 4 kinds of handshake, channels, shell requests, command, abrupt close, normal end) of three connections against a real in-process server with MaxConnections 2, de-duplicated by model state, depth 7 (quick) / 9 (thorough); after every event the reported connection count must equal the number actually open, never more than MaxConnections are served, and connects are refused/accepted as the free slots dictate.",
+C['C14'] = dict(engine='native-ssh', cat='model_checking', tech="explicit-state breadth-first search over connection-event histories, every transition replayed against a fresh real SSH server (reference model = a counter); plus stateless deviation-bounded schedule exploration of the real accounting code under the controlled scheduler",
+    text="Breadth-first search over histories of connection events (connect, 4 kinds of handshake, channels, shell requests, command, abrupt close, normal end) of three connections against a real in-process server with MaxConnections 2, de-duplicated by model state, depth 7 (quick) / 9 (thorough); after every event the reported connection count must equal the number actually open, never more than MaxConnections are served, and connects are refused/accepted as the free slots dictate. Part 2 (controlled build): all schedules within 2 deviations of the real handleConnection/accounting code for 3-4 sockets whose SSH clients run free; invariant 0 <= reported <= MaxConnections in every state, 0 at the end.",
     ref="DESIGN.md 3.5, 4 (C14)",
     note="Native build: x/crypto/ssh and loopback TCP run free; the harness controls only the order of client-side events and synchronises on positive protocol events; a mismatch must persist for 10 s. Trusted: x/crypto/ssh, the kernel.")
 C['C15'] = dict(cat='fault_enumeration', tech="exhaustive crash-point enumeration: explicit-state search over file-system states, the real WriteResult killed before every mutating file-system operation of every run of every history",
